@@ -240,7 +240,7 @@ static void run_cfg(Report & R, size_t Bd, bool full_basis)
                     double val;
                     if (pat == 0) val = double((a + 1) * (a + 1)) + double(j);
                     else if (pat == 1) val = ((a & 1) ? -1.0 : 1.0) * std::ldexp(1.0 + double(j) * 0.25, ((a / 2) & 1) ? 20 : -20) * double(1 + (a % 3));
-                    else val = 1000.0 * double(j) + 3.0 * double(a) + 0.5;
+                    else val = 1000.3 * double(j) + double(a) / 3.0 + 0.1;  // not representable in single precision
                     data[a * M + j] = static_cast<S>(val);
                 }
             auto f = build();
